@@ -16,7 +16,7 @@ RULE = (
     "non-trivial = some line failed the file / some member is invalid; state = (validity, stopped, record)"
 )
 BOUNDS = {
-    "quick": "16 fail contexts + 8 policy subsets x 3 error programs x 156 files of <=3 records; 5 singles + 20 pairs x 8 files x 6 methods",
+    "quick": "16 fail contexts + 8 policy subsets x 6 error programs x 156 files of <=3 records; 5 singles + 20 pairs x 8 files x 6 methods",
     "thorough": "same programs x all 781 files of <=4 records; singles, pairs, 60 triples x 12 files x 6 methods",
 }
 CHUNK = 150
@@ -57,6 +57,9 @@ ERR = ["=", ["v", "e"], [], fn("add", [], [["h", 1], ["t", 1]])]
 ERRPROGS = {
     "err": [ERR],
     "err C->fail()": [ERR, ["->", C, fn("fail")]],
+    "err C->stop() yes()": [ERR, ["->", C, fn("stop")], fn("yes")],
+    "err stop(C) yes()": [ERR, fn("stop", [], [C]), fn("yes")],
+    "err skip(C) yes()": [ERR, fn("skip", [], [C]), fn("yes")],
     "fail_and_stop(erroring condition)": [fn("fail_and_stop", [], [fn("above", [], [fn("add", [], [["h", 1], ["t", 1]]), ["t", 100]])])],
 }
 POLICIES = [[f for i, f in enumerate(("fail", "collect", "stop")) if m >> i & 1] for m in range(8)]
